@@ -981,6 +981,11 @@ class Engine:
                             # mark this path "quiet" so its time can be advanced
                             self.front[path]['update'] = (EmptyDefer(), store)
                             quiet_paths.append(path)
+
+                            # wake up at the end of the quiet interval
+                            # at the latest
+                            timestep = future - self.global_time
+                            full_step = min(full_step, timestep)
                     else:
                         # absolute timestep
                         timestep = future - self.global_time
